@@ -54,6 +54,7 @@ func (r *runner) complete(seq *chain.Node, seed uint64, ctx blockCtx, parent *fe
 		hx.Fatalf("model has no block hash for version %s", ctx.Version)
 	}
 	f.Hash = &mh.BH
+	f.M = mh
 	if !junoHash.Equal(&mh.BH) {
 		return f, fmt.Sprintf("block-hash:finalise: juno %s model %s", junoHash, &mh.BH)
 	}
@@ -84,8 +85,14 @@ func (r *runner) complete(seq *chain.Node, seed uint64, ctx blockCtx, parent *fe
 	return f, ""
 }
 
-func (r *runner) runChain(seed uint64) {
-	plan := planChain(seed)
+func (r *runner) runChain(seed uint64) { r.runPlan(seed, planChain(seed), false) }
+
+// runTour: a fixed 3-block chain (post-0.7, 0.13.2 and >= 0.13.4 formats) whose blocks carry one transaction of
+// EVERY kind at boundary values (zero nonce, empty calldata / paymaster / account-deployment data, tip 0, zero
+// bounds, empty signature, nil-nonce L1 handler) and one at random values; every tampering is run, none sampled.
+func (r *runner) runTour(seed uint64) { r.runPlan(seed, planTour(seed), true) }
+
+func (r *runner) runPlan(seed uint64, plan chainPlan, full bool) {
 	seq := chain.NewNode(nil, true)
 	fols := []*follower{newFollower(false), newFollower(true)}
 	var valid []func() *Built
@@ -142,6 +149,9 @@ func (r *runner) runChain(seed uint64) {
 		for fi, fo := range fols {
 			be := backendName(fo.newState)
 			sel := r.selectTampers(names, seed+uint64(i)*7+uint64(fi))
+			if full {
+				sel = names
+			}
 			if r.only != nil && (r.only.Kind != "tamper" || r.only.Pos != i || r.only.NewState != fo.newState) {
 				sel = nil
 			}
@@ -177,7 +187,7 @@ func (r *runner) runChain(seed uint64) {
 						key += "+rehash"
 					}
 					err, pan := store(fo.node, t)
-					rc := replayCase{ChainSeed: seed, Pos: i, Tamper: name, Rehash: rehash, NewState: fo.newState, Kind: "tamper"}
+					rc := replayCase{ChainSeed: seed, Pos: i, Tamper: name, Rehash: rehash, NewState: fo.newState, Kind: "tamper", Tour: full}
 					r.c.Count(fmt.Sprintf("%d/%d/%s/%s/%v", seed, i, be, name, rehash), true)
 					switch {
 					case pan != "":
@@ -219,6 +229,14 @@ func (r *runner) runChain(seed uint64) {
 					replayCase{ChainSeed: seed, Pos: i, NewState: fo.newState, Kind: "valid"}, false)
 				return
 			}
+			// what juno stored for the block is what the model says its commitments are
+			if cm, cerr := fo.node.BC.BlockCommitmentsByNumber(ctx.Number); cerr != nil || !feq(cm.TransactionCommitment, &f.M.TxC) ||
+				!feq(cm.EventCommitment, &f.M.EvC) || !feq(cm.ReceiptCommitment, &f.M.RcC) || cm.StateDiffLength != f.M.SdLen ||
+				(cm.StateDiffCommitment != nil && !feq(cm.StateDiffCommitment, &f.M.SdH)) {
+				r.c.Violation("stored-commitments-differ:"+be, fmt.Sprintf("chain %d block %d (%s): stored %+v (%v), model tx %s ev %s rc %s sd %s len %d",
+					seed, i, ctx.Version, cm, cerr, &f.M.TxC, &f.M.EvC, &f.M.RcC, &f.M.SdH, f.M.SdLen),
+					replayCase{ChainSeed: seed, Pos: i, NewState: fo.newState, Kind: "valid", Tour: full}, false)
+			}
 			r.c.Hist["accepted:"+be]++
 		}
 		if len(r.c.Samples) < 4 {
@@ -249,7 +267,7 @@ func (r *runner) selectTampers(names []string, seed uint64) []string {
 	}
 	var always, rest []string
 	for _, n := range names {
-		if len(n) > 3 && (n[:4] == "hdr." || n[:3] == "su." || n[:3] == "su+" || n[:4] == "txs.") {
+		if len(n) > 3 && (n[:4] == "hdr." || n[:3] == "su." || n[:3] == "su+" || n[:4] == "txs." || (len(n) > 6 && n[:6] == "class.")) {
 			always = append(always, n)
 		} else {
 			rest = append(rest, n)
